@@ -623,3 +623,19 @@ func Exit(status int) {
 func (t *Task) OnExit(f func()) { t.onExit = append(t.onExit, f) }
 
 var pYieldTaken = NewProbe("sched.preempt-taken")
+
+// Inline executes fn on the calling goroutine with s as the current run but
+// without a scheduler: for single-caller worlds. Seams consult the choice
+// stream; scheduling points are no-ops.
+//
+//go:norace
+func (s *Sim) Inline(fn func()) {
+	if S != nil {
+		panic("simrt: nested run")
+	}
+	S = s
+	resetPools()
+	resetKnobs()
+	defer func() { S = nil }()
+	fn()
+}
